@@ -55,6 +55,8 @@ int main(int argc, char** argv) {
     const double I = s.computeIntegral(a, q);
     r.put("int", I, dint);
     r.put("intrev", s.computeIntegral(q, a), dint);
+    r.put("int2", s.computeIntegral(xs.back() + 0.5, q), double(c["dint2"].asInt()));
+    r.put("int3", s.computeIntegral(xs.front() + 0.5, q), double(c["dint3"].asInt()));
     const double m = xs.front() + 0.5;
     r.put("intadd", s.computeIntegral(a, m) + s.computeIntegral(m, q), dint);
     if (q != a) r.put("mean", s.computeMeanValue(a, q) * (q - a), dint);
